@@ -384,7 +384,8 @@ def check(P, R):
         calls = [c for st in lp.body for c in walk_shallow(st) if isinstance(c, ast.Call) and isinstance(c.func, ast.Name)]
         pos = lp.target.elts[0].id if isinstance(lp.target, ast.Tuple) and isinstance(lp.target.elts[0], ast.Name) else '?'
         ok = any(c.args and isinstance(c.args[0], ast.Subscript) and isinstance(c.args[0].slice, ast.Slice) and c.args[0].slice.lower is None
-                 and src(c.args[0].slice.upper).replace(' ', '') in (f'1+{pos}', f'{pos}+1') for c in calls) and 'HookTypes.SIMPLE' in src(lp)
+                 and T.xsrc(hd, c.args[0].slice.upper, hd.cfg.node_of_stmt(c)[0]).replace(' ', '') in (f'1+{pos}', f'{pos}+1') for c in calls) \
+            and 'HookTypes.SIMPLE' in src(lp)
     R.ob('C11.f', hd, fors[0] if fors else hd.node, ok, text='handler fires hooks in list order with path[:1 + pos]', detail='' if ok else
          'route hooks are not invoked outermost-first with the matched prefix')
 
